@@ -33,7 +33,7 @@
 use self::errors::*;
 use crate::DmntkError;
 use std::convert::TryFrom;
-use uriparse::{RelativeReference, URI};
+use uriparse::URIReference;
 
 /// Optional reference to an element.
 pub type OptHRef = Option<HRef>;
@@ -60,12 +60,16 @@ impl TryFrom<&str> for HRef {
   type Error = DmntkError;
   /// Tries to convert string into [HRef].
   fn try_from(value: &str) -> Result<Self, Self::Error> {
-    if let Ok(relative_reference) = RelativeReference::try_from(value) {
-      let s = relative_reference.to_string();
-      return Ok(Self(if s.starts_with('#') { s.strip_prefix('#').unwrap().to_string() } else { s }));
-    }
-    if let Ok(uri) = URI::try_from(value) {
-      return Ok(Self(uri.to_string()));
+    // the conversions into relative reference and into URI panic inside the parsing library
+    // for some invalid references (like `:a` or `1:a`), the conversion into URI reference
+    // reports all errors; a valid URI reference is either a relative reference or a URI
+    if let Ok(uri_reference) = URIReference::try_from(value) {
+      let s = uri_reference.to_string();
+      return Ok(Self(if uri_reference.is_relative_reference() && s.starts_with('#') {
+        s.strip_prefix('#').unwrap().to_string()
+      } else {
+        s
+      }));
     }
     Err(err_invalid_reference(value))
   }
